@@ -32,4 +32,21 @@ theorem udp_scan_other_socket_tie : ∀ f ∈ Generated.udpScanOtherSocket, ∀ 
   intro f hf s c
   simp only [Generated.udpScanOtherSocket, Option.mem_def, Option.some.injEq, reduceCtorEq] at hf <;> (subst hf; rfl)
 
+/-- what `replyh` does to the slot and to the reply, and where it takes and gives up locks, in source order: the server's lock for the
+    unanswered count; the slot's lock; the two early exits that give it up (undecodable packet, invalid Message-Authenticator); the
+    probe's slot released; then - the accepting path - the reply QUEUED and the slot RELEASED, and only then the slot's lock given up
+    (last: the common exit of everything that was ignored). The model's `replyh` is one step: a client's removal (`removeclientrq`
+    takes the slot's lock) cannot fall between "queued" and "released"; that rests on this order. -/
+def replyhLockingExpected : List String :=
+  ["pthread_mutex_lock", "pthread_mutex_unlock", "pthread_mutex_lock", "pthread_mutex_unlock", "pthread_mutex_unlock",
+   "freerqoutdata", "sendreply", "freerqoutdata", "pthread_mutex_unlock", "pthread_mutex_unlock"]
+
+theorem replyh_locking_tie : ∀ v ∈ Generated.replyhLocking, v = replyhLockingExpected := by
+  intro v hv
+  simp only [Generated.replyhLocking, Option.mem_def, Option.some.injEq, reduceCtorEq] at hv <;> (subst hv; decide)
+
+/-- … in which nothing gives a lock up between the reply being queued and the slot being released -/
+theorem replyh_queues_and_releases_under_the_lock :
+    (replyhLockingExpected.dropWhile (· ≠ "sendreply")).take 3 = ["sendreply", "freerqoutdata", "pthread_mutex_unlock"] := by decide
+
 end Rsp.Tie.C17
